@@ -698,8 +698,26 @@ class QueryGarbageCollector(BaseGarbageCollector):
         )
     """
 
-    async def collect(self, conn):
-        result = await conn.execute(
-            sa.text(self.query.replace("%NOW%", str(int(time()))))
+    # the same for SQLite, where the expiration can be compared as a number:
+    # as text, '5' and '1700000000000' are not ordered like the numbers they denote
+    sqlite_query = """
+        DELETE FROM events WHERE events.id IN
+        (
+            SELECT events.id FROM events
+            LEFT JOIN tags on tags.id = events.id
+            WHERE 
+                (kind >= 20000 and kind < 30000)
+            OR
+                (
+                    tags.name = 'expiration'
+                    AND tags.value NOT GLOB '*[^0-9]*'
+                    AND length(tags.value) BETWEEN 1 AND 18
+                    AND CAST(tags.value AS INTEGER) < %NOW%
+                )
         )
+    """
+
+    async def collect(self, conn):
+        query = self.query if self.storage.is_postgres else self.sqlite_query
+        result = await conn.execute(sa.text(query.replace("%NOW%", str(int(time())))))
         return max(0, result.rowcount)
